@@ -168,23 +168,20 @@ func (s *SQLRepository) LastDate(name string) (time.Time, error) {
 
 // Append adds the given snapshots to the asset with the given name.
 func (s *SQLRepository) Append(name string, snapshots <-chan *Snapshot) error {
-	go func() {
-		for snapshot := range snapshots {
-			_, err := s.appendQuery.Exec(
-				name,
-				snapshot.Date,
-				snapshot.Open,
-				snapshot.High,
-				snapshot.Low,
-				snapshot.Close,
-				snapshot.Volume,
-			)
-
-			if err != nil {
-				log.Printf("unable to append snapshot: %v", err)
-			}
+	for snapshot := range snapshots {
+		_, err := s.appendQuery.Exec(
+			name,
+			snapshot.Date,
+			snapshot.Open,
+			snapshot.High,
+			snapshot.Low,
+			snapshot.Close,
+			snapshot.Volume,
+		)
+		if err != nil {
+			log.Printf("unable to append snapshot: %v", err)
 		}
-	}()
+	}
 
 	return nil
 }
